@@ -115,6 +115,8 @@ type activeLoop struct {
 	iters  int
 	spec   *LoopSpec
 	key    string
+	hks    []string // heap keys the loop may write (implicit frame invariant)
+	entry  *State // state on entry to the loop, before the havoc (loopentry(...) in invariants)
 }
 
 type Frame struct {
